@@ -102,6 +102,7 @@ def run(ck):
             with ck.guard("C05.R2", inst, gsite):
                 def fn(it, m):
                     R = role_terms(it, m)
+                    R["_shapes"] = role_shapes(it, m)
                     v0 = tens(it, "init", ("B", "nv"))
                     k = VNum("int", T.sym("k"), nonneg=True)
                     r = call(it, m, "gibbs_steps", k, v0, overwrite=VConst(ow))
@@ -136,13 +137,26 @@ def run(ck):
                             pre = pre + T.app("matmul", ap, R["U"])
                         want = T.app("bern", T.sigmoid(pre))
                         got = lp["generic"]["terms"][robj]
+                        if got != want:
+                            # (hidden and auxiliary layer drawn together from one stacked layer: pushed apart into the two layers)
+                            got = distribute_cat(got, R["_shapes"])
+                        sv_ = stacked_layer_verdict(lp["generic"]["terms"][robj], want, R["_shapes"]) if got != want else None
                         if got == want:
                             ck.ok("C05.R2", inst + ":step", lp["site"], step=got)
+                        elif sv_ is not None and sv_[0] == "pairing":
+                            ck.violation("C05.R2", inst + ":step", lp["site"], "in the stacked hidden + auxiliary layer (instance num_aux == num_hidden) %s: every unit of a layer is drawn with the other layer's bias" % sv_[1],
+                                         key="C05.R2|gibbs_steps|stacked layer misaligned")
                         else:
                             _report_step(ck, inst + ":step", lp["site"], got, want, lp, robj)
                         first = lp["first"]["terms"].get(robj)
                         want1 = T.rename_syms(want, {lp["carried"][robj]: "init"})
-                        ck.check(first == want1, "C05.R2", inst + ":first step from initial_state", lp["site"],
+                        if first is not None and first != want1:
+                            first = distribute_cat(first, R["_shapes"])
+                        _dims = {"nh", "na", "nv", "B"}
+                        ok1 = (first == want1) if first is not None else None
+                        if ok1 is False and (first.syms() - _dims) == (want1.syms() - _dims):
+                            ok1 = None  # the same values enter, written another way: not decided by comparing normal forms
+                        ck.check(ok1, "C05.R2", inst + ":first step from initial_state", lp["site"],
                                  "the first step does not start from the given initial state")
                     # ---- R3 overwrite
                     writes_init = [e for e in p.effects if "param:init" in e.origins and e.kind in ("write", "meta")]
@@ -157,6 +171,7 @@ def run(ck):
             with ck.guard("C05.R2", inst + "/k const", gsite):
                 def fn2(it, m):
                     R = role_terms(it, m)
+                    R["_shapes"] = role_shapes(it, m)
                     r0 = call(it, m, "gibbs_steps", VConst(0), tens(it, "init", ("B", "nv")), overwrite=VConst(ow))
                     r2 = call(it, m, "gibbs_steps", VConst(2), tens(it, "init", ("B", "nv")), overwrite=VConst(ow))
                     return R, r0, r2
@@ -172,7 +187,15 @@ def run(ck):
                             pre = pre + T.app("matmul", T.app("bern", T.sigmoid(aff(x, R["U"], R["d"]))), R["U"])
                         return T.app("bern", T.sigmoid(pre))
 
-                    ck.check(r2.term == step(step(T.sym("init"))), "C05.R2", inst + ":k=2 is two steps", gsite, "k=2 is not the two-fold composition of the block-Gibbs step")
+                    w2 = step(step(T.sym("init")))
+                    g2 = r2.term
+                    if g2 is not None and g2 != w2:
+                        g2 = distribute_cat(g2, R["_shapes"])
+                    _dims = {"nh", "na", "nv", "B"}
+                    ok2 = (g2 == w2) if g2 is not None else None
+                    if ok2 is False and (g2.syms() - _dims) == (w2.syms() - _dims) and distribute_cat(r2.term, R["_shapes"]) != r2.term:
+                        ok2 = None  # a stacked-layer spelling the normaliser could not push apart completely
+                    ck.check(ok2, "C05.R2", inst + ":k=2 is two steps", gsite, "k=2 is not the two-fold composition of the block-Gibbs step")
     # ---------------------------------------------------------------- sample(): forwarding, start state
     for scls in ("PositiveWaveFunction", "ComplexWaveFunction", "DensityMatrix"):
         ssite = prog.method(scls, "sample").site()
@@ -289,6 +312,11 @@ def _cond_diag(got, want):
 
 def _report_step(ck, inst, site, got, want, lp, robj):
     carried = set(lp["carried"].values())
+    _dims = {"nh", "na", "nv", "B"}
+    if (got.syms() - _dims) == (want.syms() - _dims) and got.syms() != want.syms():
+        # the same values enter; what differs is a size symbol (a slice bound, a reshape): not a dependency
+        ck.undecided("C05.R2", inst, site, "step differs structurally: %r vs %r" % (got, want))
+        return
     stale = [s for s in got.syms() if s in carried and s != lp["carried"][robj]]
     if stale:
         ck.violation("C05.R2", inst, site, "the visible update reads a hidden/auxiliary buffer left over from the previous iteration (%s): "
